@@ -890,6 +890,38 @@ def nconcat2(src, log):
         log.append("N7 [a, b].concat() -> vx_concat2(a, b)")
 
 
+def n17_map_collect(src, log):
+    """`E.into_iter().map(|X| { BODY }).collect()`  ->  `{ let mut __vx_vK = Vec::new(); for X in E { __vx_vK.push({ BODY }); } __vx_vK }`
+    (definition of map + collect into a Vec: the items are produced in order; needed where the closure captures a `&mut`).
+    The receiver E must be a plain identifier."""
+    k = 0
+    while True:
+        toks = lex(src)
+        hit = None
+        for c in find_closures(src, toks):
+            b0, b1, st, en, blk = c
+            if not blk or b1 != b0 + 2 or toks[b0 + 1].kind != "ident":
+                continue
+            # IDENT . into_iter ( ) . map ( |X| {..} ) . collect ( )
+            if b0 >= 8 and toks[b0 - 1].text == "(" and toks[b0 - 2].text == "map" and toks[b0 - 3].text == "." \
+                    and toks[b0 - 4].text == ")" and toks[b0 - 5].text == "(" and toks[b0 - 6].text == "into_iter" \
+                    and toks[b0 - 7].text == "." and toks[b0 - 8].kind == "ident" and not (b0 >= 9 and toks[b0 - 9].text in (".", "::")):
+                cl = toks[b0 - 1].mate
+                if cl != en + 1:
+                    continue
+                if not (toks[cl + 1].text == "." and toks[cl + 2].text == "collect" and toks[cl + 3].text == "(" and toks[cl + 4].text == ")"):
+                    continue
+                hit = (b0 - 8, cl + 4, toks[b0 - 8].text, toks[b0 + 1].text, src[toks[st].start:toks[en].end])
+                break
+        if hit is None:
+            return src
+        i, e, recv, param, body = hit
+        v = f"__vx_v{k}"
+        src = src[:toks[i].start] + f"{{ let mut {v} = Vec::new(); for {param} in {recv} {{ {v}.push({body}); }} {v} }}" + src[toks[e].end:]
+        log.append(f"N17 {recv}.into_iter().map(|{param}| ..).collect() -> push loop")
+        k += 1
+
+
 def n16_option_map(src, log):
     """`OPT.map(|P| { BODY })`  ->  `match OPT { Some(P) => Some({ BODY }), None => None }`  and the same for a
     non-block closure body (definition of Option::map; needed where the closure captures a `&mut`, which Verus closures
@@ -1045,6 +1077,8 @@ def normalise(src, rules, log, ctx=None):
             src = n9g_match_guard_general(src, log)
         elif r == "n13":
             src = n13_inline_emit_node(src, log, ctx.get("n13_def"))
+        elif r == "n17":
+            src = n17_map_collect(src, log)
         elif r == "n16":
             src = n16_option_map(src, log)
         elif r == "nctxdata":
